@@ -64,58 +64,67 @@ End Filters.
 
 Section Api.
   Variable V : Type.
-  Variable perfile : path -> option content -> list V.
-  Variable rep_blocks : list fv -> list fv -> list V.
-  Variable rep_consts rep_st : list fv -> list V.
+  Variable perfile perfile_fp : path -> option content -> list V.
+  Variable rep_blocks : option content -> list fv -> list fv -> list V.
+  Variable rep_consts : option content -> list fv -> list V.
+  Variable rep_st : list fv -> list V.
   Variable hard_excl : path -> bool.
   Variable ignored : option content -> path -> bool.
-  Variable ign_path : path.
+  Variable ign_path cfg_path : path.
   Variable in_dir : nat -> path -> bool.
 
-  Notation run_entry := (run_entry V perfile rep_blocks rep_consts rep_st hard_excl ignored).
-  Notation run_single := (run_single V perfile rep_blocks rep_consts rep_st hard_excl ignored).
-  Notation step := (step V perfile rep_blocks rep_consts rep_st hard_excl ignored ign_path in_dir).
-  Notation run := (run V perfile rep_blocks rep_consts rep_st hard_excl ignored ign_path in_dir).
-  Notation freshN := (fresh V perfile rep_blocks rep_consts rep_st hard_excl ignored ign_path in_dir).
-  Notation fresh_run := (fresh_run V perfile rep_blocks rep_consts rep_st hard_excl ignored ign_path in_dir).
-  Notation cli_run := (cli_run V perfile rep_blocks rep_consts rep_st hard_excl ignored ign_path in_dir).
-  Notation api_run := (api_run V perfile rep_blocks rep_consts rep_st hard_excl ignored ign_path in_dir).
-  Notation mk_init := (mk_init ign_path).
+  Notation run_entry := (run_entry V perfile perfile_fp rep_blocks rep_consts rep_st hard_excl ignored).
+  Notation run_single := (run_single V perfile perfile_fp rep_blocks rep_consts rep_st hard_excl ignored).
+  Notation step := (step V perfile perfile_fp rep_blocks rep_consts rep_st hard_excl ignored ign_path cfg_path in_dir).
+  Notation run := (run V perfile perfile_fp rep_blocks rep_consts rep_st hard_excl ignored ign_path cfg_path in_dir).
+  Notation freshN := (fresh V perfile perfile_fp rep_blocks rep_consts rep_st hard_excl ignored ign_path cfg_path in_dir).
+  Notation fresh_run := (fresh_run V perfile perfile_fp rep_blocks rep_consts rep_st hard_excl ignored ign_path cfg_path in_dir).
+  Notation cli_run := (cli_run V perfile perfile_fp rep_blocks rep_consts rep_st hard_excl ignored ign_path cfg_path in_dir).
+  Notation api_run := (api_run V perfile perfile_fp rep_blocks rep_consts rep_st hard_excl ignored ign_path cfg_path in_dir).
+  Notation mk_init := (mk_init ign_path cfg_path).
   Notation coherent := (coherent ignored).
-  Notation pfout := (pfout V perfile hard_excl ignored).
-  Notation pf1 := (pf1 V perfile hard_excl ignored).
-  Notation REF := (run_entry_finalizing V perfile rep_blocks rep_consts rep_st hard_excl ignored).
-  Notation RSC := (run_single_char V perfile rep_blocks rep_consts rep_st hard_excl ignored).
+  Notation pfout := (pfout V perfile perfile_fp hard_excl ignored).
+  Notation pf1 := (pf1 V perfile perfile_fp hard_excl ignored).
+  Notation REF := (run_entry_finalizing V perfile perfile_fp rep_blocks rep_consts rep_st hard_excl ignored).
+  Notation RSC := (run_single_char V perfile perfile_fp rep_blocks rep_consts rep_st hard_excl ignored).
+  Notation views_ok := (views_ok).
 
   (* ---------- 1. directory / file list = union of the files, for everything check() returns ---------- *)
-  (* (for an object whose ignore parser holds the current patterns: ppats st = the ignore file of fs) *)
-  Lemma single_file_pf q fs p : o_pf (freshN q fs (LintFile p)) = pf1 (fs_get fs ign_path) fs p.
+  (* (for an object that holds the current patterns and configuration and whose rules use that configuration) *)
+  Definition current (q : oquirks) (st : ostate) (fs : fsys) : Prop :=
+    ppats st = fs_get fs ign_path /\ ocfg st = fs_get fs cfg_path /\ views_ok q st.
+
+  Lemma fresh_fp_view q fs : fp_view q (mk_init fs) = fs_get fs cfg_path.
+  Proof. destruct (views_ok_fresh q (fs_get fs ign_path) (fs_get fs cfg_path)) as (A & _). exact A. Qed.
+
+  Lemma single_file_pf q fs p : o_pf (freshN q fs (LintFile p)) = pf1 (fs_get fs ign_path) (fs_get fs cfg_path) (fs_get fs cfg_path) fs p.
   Proof.
     unfold OrchHist.fresh. cbn [OrchHist.step].
-    pose proof (RSC q "lint_file" fs (mk_init fs) p (coherent_init ignored _)) as (_ & _ & _ & Hp).
-    destruct (Hp gen_lint_file_no_finalize) as (H1 & _).
+    pose proof (RSC q "lint_file" fs (mk_init fs) p (coherent_init ignored _ _)) as (_ & _ & _ & Hp).
+    destruct (Hp gen_lint_file_no_finalize) as (H1 & _). cbn zeta in H1. rewrite fresh_fp_view in H1.
     destruct (run_single q "lint_file" fs (mk_init fs) p) as [s r]. cbn [fst snd] in *. rewrite H1. cbn [o_pf].
     unfold OrchHistBase.pfout. cbn [flat_map]. apply app_nil_r.
   Qed.
 
-  Lemma pfout_union q fs ps : pfout (fs_get fs ign_path) fs ps = flat_map (fun p => o_pf (freshN q fs (LintFile p))) ps.
+  Lemma pfout_union q fs ps :
+    pfout (fs_get fs ign_path) (fs_get fs cfg_path) (fs_get fs cfg_path) fs ps = flat_map (fun p => o_pf (freshN q fs (LintFile p))) ps.
   Proof. unfold OrchHistBase.pfout. apply flat_map_ext. intros p. symmetry. apply single_file_pf. Qed.
 
-  Theorem files_is_union q st fs ps : coherent st -> ppats st = fs_get fs ign_path ->
+  Theorem files_is_union q st fs ps : coherent st -> current q st fs ->
     o_pf (snd (step q (st, fs) (LintFiles ps))) = flat_map (fun p => o_pf (freshN q fs (LintFile p))) ps.
   Proof.
-    intros C S. cbn [OrchHist.step].
+    intros C (S & SC & (W1 & _)). cbn [OrchHist.step].
     pose proof (REF q "lint_files" fs st ps gen_lint_files_finalizes C) as (H1 & _).
-    destruct (run_entry q "lint_files" fs st ps) as [s r]. cbn [fst snd] in *. rewrite H1, S. cbn [o_pf]. apply pfout_union.
+    destruct (run_entry q "lint_files" fs st ps) as [s r]. cbn [fst snd] in *. rewrite H1, W1, S, SC. cbn [o_pf]. apply pfout_union.
   Qed.
 
-  Theorem dir_is_union q st fs d l : coherent st -> ppats st = fs_get fs ign_path ->
+  Theorem dir_is_union q st fs d l : coherent st -> current q st fs ->
     o_pf (snd (step q (st, fs) (LintDir d l))) = flat_map (fun p => o_pf (freshN q fs (LintFile p))) (walk in_dir fs d l)
     /\ o_pf (snd (step q (st, fs) (ApiLint (TDir d l)))) = flat_map (fun p => o_pf (freshN q fs (LintFile p))) (walk in_dir fs d l).
   Proof.
-    intros C S. cbn [OrchHist.step]. rewrite gen_api_dir_entry.
+    intros C (S & SC & (W1 & _)). cbn [OrchHist.step]. rewrite gen_api_dir_entry.
     pose proof (REF q "lint_directory" fs st (walk in_dir fs d l) gen_lint_directory_finalizes C) as (H1 & _).
-    destruct (run_entry q "lint_directory" fs st (walk in_dir fs d l)) as [s r]. cbn [fst snd] in *. rewrite H1, S. cbn [o_pf].
+    destruct (run_entry q "lint_directory" fs st (walk in_dir fs d l)) as [s r]. cbn [fst snd] in *. rewrite H1, W1, S, SC. cbn [o_pf].
     split; apply pfout_union.
   Qed.
 
@@ -124,13 +133,14 @@ Section Api.
     o_pf (api_run q fs (TFile p)) = o_pf (freshN q fs (LintFile p)).
   Proof.
     intros E. unfold OrchHist.api_run, OrchHist.fresh at 1. cbn [OrchHist.step]. rewrite E.
-    pose proof (RSC q (api_file_entry q) fs (mk_init fs) p (coherent_init ignored _)) as (_ & _ & Hf & Hp).
+    pose proof (RSC q (api_file_entry q) fs (mk_init fs) p (coherent_init ignored _ _)) as (_ & _ & Hf & Hp).
     rewrite single_file_pf. destruct (api_entry_cases q) as [Ea|Ea]; rewrite Ea in *.
-    - destruct (Hp gen_lint_file_no_finalize) as (H1 & _).
+    - destruct (Hp gen_lint_file_no_finalize) as (H1 & _). cbn zeta in H1. rewrite fresh_fp_view in H1.
       destruct (run_single q "lint_file" fs (mk_init fs) p) as [s r]. cbn [fst snd] in *. rewrite H1. cbn [o_pf].
       unfold OrchHistBase.pfout. cbn [flat_map]. apply app_nil_r.
     - specialize (Hf gen_lint_files_finalizes).
-      pose proof (REF q "lint_files" fs (mk_init fs) [p] gen_lint_files_finalizes (coherent_init ignored _)) as (H1 & _).
+      pose proof (REF q "lint_files" fs (mk_init fs) [p] gen_lint_files_finalizes (coherent_init ignored _ _)) as (H1 & _).
+      cbn zeta in H1. rewrite fresh_fp_view in H1.
       destruct (run_single q "lint_files" fs (mk_init fs) p) as [s r]. rewrite <- Hf in H1. cbn [fst snd] in *. rewrite H1. cbn [o_pf].
       unfold OrchHistBase.pfout. cbn [flat_map]. apply app_nil_r.
   Qed.
@@ -166,18 +176,20 @@ Section Api.
 
   Lemma cli_ops_batch q files dirs :
     forallb (fun o => negb (bare_single q o)) (cli_ops files dirs) = true /\ forallb lint_op (cli_ops files dirs) = true
-    /\ hist_synced ign_path false (cli_ops files dirs) = true
-    /\ forallb (fun o => negb (is_new_linter o)) (cli_ops files dirs) = true.
+    /\ hist_synced ign_path cfg_path false false (cli_ops files dirs) = true
+    /\ forallb (fun o => negb (is_new_linter o)) (cli_ops files dirs) = true
+    /\ forallb (fun o => negb (is_reload o)) (cli_ops files dirs) = true.
   Proof.
     unfold cli_ops. assert (HD : forall ds : list (nat * list path),
                forallb (fun o => negb (bare_single q o)) (map (fun d => LintDir (fst d) (snd d)) ds) = true
                /\ forallb lint_op (map (fun d => LintDir (fst d) (snd d)) ds) = true
-               /\ hist_synced ign_path false (map (fun d => LintDir (fst d) (snd d)) ds) = true
-               /\ forallb (fun o => negb (is_new_linter o)) (map (fun d => LintDir (fst d) (snd d)) ds) = true).
-    { induction ds as [|d r (I1 & I2 & I3 & I4)]; [repeat split|]. cbn [map forallb bare_single negb andb lint_op hist_synced is_new_linter].
+               /\ hist_synced ign_path cfg_path false false (map (fun d => LintDir (fst d) (snd d)) ds) = true
+               /\ forallb (fun o => negb (is_new_linter o)) (map (fun d => LintDir (fst d) (snd d)) ds) = true
+               /\ forallb (fun o => negb (is_reload o)) (map (fun d => LintDir (fst d) (snd d)) ds) = true).
+    { induction ds as [|d r (I1 & I2 & I3 & I4 & I5)]; [repeat split|]. cbn [map forallb bare_single negb andb lint_op hist_synced is_new_linter is_reload].
       repeat split; assumption. }
-    destruct (HD dirs) as (H1 & H2 & H3 & H4). destruct files as [|f fr]; cbn [app]; [repeat split; assumption|].
-    cbn [forallb bare_single negb andb lint_op hist_synced is_new_linter]. repeat split; assumption.
+    destruct (HD dirs) as (H1 & H2 & H3 & H4 & H5). destruct files as [|f fr]; cbn [app]; [repeat split; assumption|].
+    cbn [forallb bare_single negb andb lint_op hist_synced is_new_linter is_reload]. repeat split; assumption.
   Qed.
 
   (* for every quirk vector, in particular the one claimed for the current tree *)
@@ -185,8 +197,8 @@ Section Api.
     cli_run q fs files dirs = map (freshN q fs) (cli_ops files dirs).
   Proof.
     unfold OrchHist.cli_run. rewrite cli_guard.
-    destruct (cli_ops_batch q files dirs) as (B & L & HS & NL).
-    rewrite (history_independent_faithful V perfile rep_blocks rep_consts rep_st hard_excl ignored ign_path in_dir q fs (cli_ops files dirs) B NL HS).
+    destruct (cli_ops_batch q files dirs) as (B & L & HS & NL & NR).
+    rewrite (history_independent_faithful V perfile perfile_fp rep_blocks rep_consts rep_st hard_excl ignored ign_path cfg_path in_dir q fs (cli_ops files dirs) B NL NR HS).
     now apply fresh_run_lint_only.
   Qed.
 End Api.
